@@ -529,7 +529,7 @@ class ExtendedIndexedOperand(Operand):
             return CodePackage(
                 op_code=NumericValue(self.instruction.mode.ind),
                 post_byte=NumericValue(0x9F),
-                additional=self.value,
+                additional=self.value if self.value.is_negative() else NumericValue(self.value.int, size_hint=4),
                 size=size,
                 max_size=size,
             )
